@@ -190,6 +190,8 @@ def typecode(msg: str) -> Optional[int]:
 def cprNL(lat: float) -> int:
     """NL() function in CPR decoding."""
 
+    lat = float(lat)  # evaluate in double precision whatever numpy type is passed
+
     if np.isclose(lat, 0):
         return 59
     elif np.isclose(abs(lat), 87, rtol=0, atol=1e-9):
